@@ -20,7 +20,7 @@ class TST_Q : TST_P { string extra; };
 
 NSS = ['root/a', 'root/b']
 NS_MISSING = 'root/nonexistent'
-N_B = 2                     # objects in the second namespace
+N_B = 4                     # objects in the second namespace (index 1: the one a history may remove)
 
 # family index -> (Iter method, Open, Pull, traditional, flag attribute, takes a source instance)
 FAMS = [
@@ -145,6 +145,8 @@ class Real:
         self.ng = 0
         self.viol = []          # (sig, observed, event index)
         self.stats = {}
+        self.taught = {}        # family -> what switched its flag away from None: status code of the refused Open | 'open-ok'
+        self.removed = set()    # namespace indices removed during the history
         self.refused = set()    # contexts whose CloseEnumeration the server refused (pull disabled at that time)
         self.evno = 0
         orig = self.conn._imethodcall
@@ -220,6 +222,10 @@ class Real:
         elif FAMS[fam][5]:
             args = (pywbem.CIMInstanceName('TST_P', keybindings={'name': ev['src']}, namespace=ns),)
             kw = extra
+        elif ev.get('clsobj'):
+            # the namespace travels inside the CIMClassName, namespace=None
+            args = (pywbem.CIMClassName(ev['cls'], namespace=ns),)
+            kw = dict(extra)
         else:
             args = (ev['cls'],)
             kw = dict(extra, namespace=ns)
@@ -314,7 +320,8 @@ class Real:
         if self.case['use'] is None and before is not None:
             if self.fresh_succeeds(ev):
                 self.violate({'kind': 'learned_state_breaks_call', 'learned': before, 'exc': name, 'code': code,
-                              'server_pull_now': 'disabled' if disabled else 'enabled'},
+                              'server_pull_now': 'disabled' if disabled else 'enabled',
+                              'taught_by': self.taught.get(ev['fam'])},
                              {'fam': ev['fam'], 'flags': self.flags()})
                 return
         if name == 'CIMError':
@@ -413,6 +420,24 @@ class Real:
         if kind == 'disable':
             self.conn.disable_pull_operations = ev['v']
             return {'ok': None}, self.conv_log()
+        if kind == 'rmns':
+            # empty the namespace, then remove it (the only way the mock allows); enumerations opened in it stay
+            if ev['ns'] not in self.removed:
+                c, ns = self.conn, NSS[ev['ns']]
+                self.quiet = True
+                try:
+                    for cn in ('TST_L', 'TST_Q', 'TST_P'):
+                        for p in c.EnumerateInstanceNames(cn, namespace=ns):
+                            c.DeleteInstance(p)
+                    for cn in ('TST_L', 'TST_Q', 'TST_P'):
+                        c.DeleteClass(cn, namespace=ns)
+                    for q in c.EnumerateQualifiers(namespace=ns):
+                        c.DeleteQualifier(q.name, namespace=ns)
+                    c.remove_namespace(ns)
+                finally:
+                    self.quiet = False
+                self.removed.add(ev['ns'])
+            return {'ok': None}, self.conv_log()
         j = ev['g']
         m = self.meta[j]
         g = self.gens.get(j)
@@ -452,7 +477,8 @@ class Real:
             else:
                 if first:
                     self.check_start_error(m, res)
-                elif not (res == {'exc': 'CIMError', 'code': 7} and self.conn.disable_pull_operations):
+                elif not ((res == {'exc': 'CIMError', 'code': 7} and self.conn.disable_pull_operations) or
+                          (res == {'exc': 'CIMError', 'code': 3} and m['ev']['ns'] in self.removed)):
                     self.violate({'kind': 'undocumented_error', 'fam': m['ev']['fam'], 'exc': res['exc'],
                                   'code': res.get('code'), 'at': 'midstream'}, {'route': m['route']})
                 self.finished(j, 'error')
@@ -502,7 +528,12 @@ class Real:
         try:
             for i, ev in enumerate(self.case['events']):
                 self.evno = i
+                fl0 = self.flags()
                 res, log = self.step(ev)
+                for f, (b0, b1) in enumerate(zip(fl0, self.flags())):
+                    if b0 is None and b1 is not None:
+                        errs = [e[2] for e in log if e[0] == 'open' and e[1] == f and e[2] is not None]
+                        self.taught[f] = 'open-ok' if b1 else (errs[-1].get('code', errs[-1]['exc']) if errs else '?')
                 model_events.append(self.model_ev)
                 steps.append({'res': res, 'flags': self.flags(), 'open': self.open_ids(), 'log': log})
                 self.count('ev:' + ev['ev'])
@@ -533,6 +564,9 @@ def gen_call(rng, n, style):
     ev = {'ev': 'call', 'fam': fam, 'ns': rng.choice([0] * 10 + [1, 2]),
           'cls': rng.choice(['TST_P'] * 8 + ['TST_Q', 'TST_X']), 'src': rng.choice(['p0'] * 6 + ['p1', 'zz']),
           'extra': rng.randrange(20), 'lang': 0, 'query': False, 'coe': None, 'rqrc': None, 'timeout': None}
+    if fam in (0, 1) and rng.random() < 0.3:
+        ev['clsobj'] = True
+        ev['ns'] = rng.choice([0, 1, 1, 1, 2])
     ev['max'] = rng.choice([1, 1, 2, 2, 3, max(n, 1), n + 1, 100])
     if style == 'nearmiss' or rng.random() < 0.10:
         ev['max'] = rng.choice([0, -1, None, 'x', 1, n + 1, 1000000])
@@ -561,16 +595,28 @@ def gen_case(rng, thorough):
     case = {'use': use, 'disabled': rng.random() < 0.4, 'n': n, 'events': [], 'style': style}
     evs = case['events']
     live, ng = [], 0
+    waiting = set()         # generators on namespace 1 that have not run yet (their namespace must not vanish first)
+    removed = False
     for _ in range(rng.randint(3, 14)):
         r = rng.random()
         if not live or r < 0.25:
             ev = gen_call(rng, n, style)
+            if style == 'toggle' and not removed and rng.random() < 0.4 and ev['ns'] == 0:
+                ev['ns'] = 1
             evs.append(ev)
             if ev['fam'] != 6:
                 live.append(ng)
+                if ev['ns'] == 1 and not removed:
+                    waiting.add(ng)
             ng += 1
             continue
+        if not removed and not waiting and ng and rng.random() < (0.12 if style == 'toggle' else 0.03):
+            evs.append({'ev': 'rmns', 'ns': 1})
+            removed = True
+            continue
         g = live[-1] if rng.random() < 0.6 else rng.choice(live)
+        if r < 0.90:
+            waiting.discard(g)  # next / close / drop / throw start or end the generator
         if r < 0.70:
             for _ in range(rng.choice([1, 1, 2, 3, n + 2])):
                 evs.append({'ev': 'next', 'g': g})
@@ -639,7 +685,7 @@ def _renumber(tagged):
     index = {cid: i for i, cid in enumerate(calls)}
     out = []
     for ev, cid in tagged:
-        if ev['ev'] in ('call', 'disable'):
+        if ev['ev'] in ('call', 'disable', 'rmns'):
             out.append(ev)
         elif cid in index:
             out.append(dict(ev, g=index[cid]))
@@ -654,7 +700,7 @@ def shrink_case(case, sig):
         if ev['ev'] == 'call':
             tagged.append((ev, cid))
             cid += 1
-        elif ev['ev'] == 'disable':
+        elif ev['ev'] in ('disable', 'rmns'):
             tagged.append((ev, None))
         else:
             tagged.append((ev, ev['g']))
@@ -715,7 +761,8 @@ RULE = ('seeded random histories on one real FakedWBEMConnection: use_pull_opera
         'existing/other/missing, classes/source instances existing or not, MaxObjectCount 1..n+1,100 and a near-miss stream '
         '0,-1,None,non-int,10^6; OperationTimeout None,0,10,40,41,60,-1,non-int; FilterQueryLanguage/FilterQuery/'
         'ContinueOnError/ReturnQueryResultClass combinations; extra arguments shared with the traditional operation), '
-        'bursts of next(), close(), drop + gc.collect(), throw(OSError | CIMError 7/1/4), several generators alive at '
+        'bursts of next(), close(), drop + gc.collect(), throw(OSError | CIMError 7/1/4), removal of the second namespace '
+        'under running enumerations, ClassName as CIMClassName carrying the namespace, several generators alive at '
         'once, final drops; repository sizes 0..8 (thorough ..34). Compared per event: result, the 7 flags, the '
         'server context table, the requests that reached the server. Non-trivial = some generator yielded an object; '
         'distinct = distinct canonical history JSON')
@@ -810,6 +857,42 @@ def directed_cases():
                 evs = [dict(call), {'ev': 'next', 'g': 0}, {'ev': 'drop', 'g': 0}, {'ev': 'disable', 'v': True},
                        dict(call, **v), {'ev': 'next', 'g': 1}]
                 out.append({'use': None, 'disabled': False, 'n': 3, 'events': evs, 'style': 'directed'})
+    nx = lambda g, k=1: [{'ev': 'next', 'g': g}] * k
+    # only "pull not supported" may teach the connection anything: an Open refused for another reason (missing
+    # namespace, unknown class) followed by a call that needs pull (ContinueOnError / FilterQuery)
+    for fam in range(6):
+        call = dict(base, fam=fam)
+        bads = [{'ns': 2}] + ([{'cls': 'TST_X'}] if fam < 2 else [{'src': 'zz'}])
+        for bad in bads:
+            for kw in ({'coe': False}, {'lang': 1, 'query': True}, {}):
+                evs = [dict(call, **bad)] + nx(0) + [dict(call, **kw)] + nx(1, 4)
+                out.append({'use': None, 'disabled': False, 'n': 3, 'events': evs, 'style': 'directed'})
+    # three enumerations sharing the server: A and B open, A exhausted, C opens, B and C continue (context ids must
+    # stay distinct whatever the table size is)
+    for fa, fb, fc in ((0, 1, 0), (1, 0, 1), (0, 0, 0), (1, 1, 1), (2, 3, 4), (5, 4, 3), (3, 3, 3)):
+        for use in (None, True):
+            for mx in (1, 2):
+                a_, b_, c_ = (dict(base, fam=f, max=mx) for f in (fa, fb, fc))
+                evs = [a_, b_] + nx(0) + nx(1) + nx(0, 7) + [c_] + nx(2) + nx(1, 2) + nx(2, 2) + nx(1, 6) + nx(2, 6)
+                out.append({'use': use, 'disabled': False, 'n': 6, 'events': evs, 'style': 'directed'})
+                evs = [a_, b_] + nx(0) + nx(1) + [{'ev': 'close', 'g': 0}, c_] + nx(2) + [{'ev': 'drop', 'g': 1}] + nx(2, 7)
+                out.append({'use': use, 'disabled': False, 'n': 6, 'events': evs, 'style': 'directed'})
+    # the namespace of a running enumeration is removed: the Pull is refused, the enumeration must still be closed
+    for fam in range(6):
+        for use in (None, True):
+            for mx in (1, 2):
+                call = dict(base, fam=fam, ns=1, max=mx)
+                for tail in (nx(0, 3), nx(0, mx - 1) + [{'ev': 'close', 'g': 0}], nx(0, mx - 1) + [{'ev': 'drop', 'g': 0}],
+                             nx(0, mx) + [dict(call)] + nx(1)):
+                    evs = [dict(call)] + nx(0) + [{'ev': 'rmns', 'ns': 1}] + tail
+                    out.append({'use': use, 'disabled': False, 'n': 3, 'events': evs, 'style': 'directed'})
+    # the class given as CIMClassName carrying the namespace (namespace=None)
+    for fam in (0, 1):
+        for use in (None, True, False):
+            for disabled in (False, True):
+                for ns in (1, 0, 2):
+                    call = dict(base, fam=fam, ns=ns, clsobj=True)
+                    out.append({'use': use, 'disabled': disabled, 'n': 3, 'events': [call] + nx(0, 6), 'style': 'directed'})
     return out
 
 
